@@ -13,7 +13,7 @@ from .common import *
 
 META = {
     "level": "other",
-    "explanation": "Glue-discipline check over every function of construct/ that has a `path` in scope: (R1) ConstructError.__init__ stores path and prefixes the message; (R2) parse_stream/build_stream/sizeof start the path with '(parsing)'/'(building)'/'(sizeof)'; (R3) Renamed._parse/_build/_sizeof extend the path with one identical ' -> name' suffix and hand the extended path to the sub-construct; (R4) at every sub-construct call site and every stream_* helper call the path argument is the incoming path; (R5) every raise of a ConstructError subclass carries path=path. A rule that holds at every site holds for every composition of constructs, which is the quantifier the tests cannot reach.",
+    "explanation": "Glue-discipline check over every function of construct/ that has a `path` in scope: (R1) ConstructError.__init__ stores path and prefixes the message; (R2) parse_stream/build_stream/sizeof start the path with '(parsing)'/'(building)'/'(sizeof)'; (R3) Renamed._parse/_build/_sizeof extend the path with one identical ' -> name' suffix and hand the extended path to the sub-construct; (R4) at every sub-construct call site and every stream_* helper call the path argument is the incoming path; (R5) every raise of a ConstructError subclass carries path=path. A rule that holds at every site holds for every composition of constructs, which is the quantifier the tests cannot reach. (R7) every _sizeof/_actualsize translates a missing context key into SizeofError where it evaluates the parameter, so the path names that construct (shared with C05.R1); (R8) parsing consumes bytes by reading, never by seeking forward, so a truncation is reported under the member whose extent contains it (shared with C06.R6).",
     "undecided": "Which member's extent contains a given truncation offset is a run-time fact; decided here is only that whatever fails reports the path it was handed, and that each named level adds its own name.",
     "trusted_base": ["python ast (3.12)", "sa.summ path-sensitive summariser", "class-hierarchy resolution of the five protocol method names"],
     "assumptions": ["user-defined Construct subclasses outside the package are not analysed", "generated (compiled) code is excluded by documentation: 'Exceptions do not include path'"],
